@@ -106,6 +106,28 @@ func (t *Truth) ByVal(kind, val string) *Secret {
 	return nil
 }
 
+// NewestUsed returns the newest secret of kind/owner that was spent by being accepted.
+func (t *Truth) NewestUsed(kind, owner string) *Secret {
+	l := t.Find(kind, owner)
+	for i := len(l) - 1; i >= 0; i-- {
+		if l[i].Dead && l[i].Used {
+			return l[i]
+		}
+	}
+	return nil
+}
+
+// NewestDeadUnused returns the newest dead secret of kind/owner that was never accepted.
+func (t *Truth) NewestDeadUnused(kind, owner string) *Secret {
+	l := t.Find(kind, owner)
+	for i := len(l) - 1; i >= 0; i-- {
+		if l[i].Dead && !l[i].Used {
+			return l[i]
+		}
+	}
+	return nil
+}
+
 // Kill marks live secrets of kind/owner dead.
 func (t *Truth) Kill(kind, owner, why string) {
 	for _, s := range t.Live(kind, owner) {
@@ -125,6 +147,9 @@ func (t *Truth) Prune(maxDead int) {
 			continue
 		}
 		k := s.Kind + "\x00" + s.Owner
+		if s.Used {
+			k += "\x00used" // spent-by-use and removed-otherwise are kept separately: both are replay candidates
+		}
 		if count[k] < maxDead {
 			keep[i] = true
 			count[k]++
